@@ -109,3 +109,54 @@ func typesBuild(args []string) *Result {
 	}
 	return res
 }
+
+// types-chain <tlc-output>: the 'or' diamonds of MC_C01types ("D" lines).  Time must be proportional to the input:
+// the per-case limit of C01 (2 s + 50 us/byte) applies; the growth factor between depths is reported as well.
+func typesChain(args []string) *Result {
+	res := &Result{}
+	type pt struct {
+		depth int
+		dur   float64
+		bytes int
+	}
+	var pts []pt
+	err := forEachEmitted(args[0], "D", func(js string) error {
+		var cs struct {
+			Depth int `json:"depth"`
+		}
+		if err := json.Unmarshal([]byte(js), &cs); err != nil {
+			return err
+		}
+		var sb strings.Builder
+		sb.WriteString("JSIGHT 0.3\n")
+		for i := 0; i < cs.Depth; i++ {
+			fmt.Fprintf(&sb, "TYPE @a%d\n@a%d | @b%d\nTYPE @b%d\n@b%d | @a%d\n", i, i+1, i+1, i, i+1, i+1)
+		}
+		fmt.Fprintf(&sb, "TYPE @a%d\n1\nTYPE @b%d\n\"s\"\n", cs.Depth, cs.Depth)
+		text := sb.String()
+		res.Cases++
+		res.Nontrivial++
+		out, pm, dur := totalBuild("root.jst", []byte(text))
+		pts = append(pts, pt{cs.Depth, dur.Seconds(), len(text)})
+		res.count(out)
+		if out == "panic" {
+			res.mismatch("c01:panic:"+panicSite(pm), "building an 'or' diamond panics: "+pm, map[string]any{"kind": "c01-text", "text": text})
+		}
+		if limit := 2.0 + 50e-6*float64(len(text)); dur.Seconds() > limit {
+			res.mismatch("c01:slow:or-diamond", fmt.Sprintf("an 'or' diamond of depth %d (%d bytes, %d types) takes %.1f s to build (limit %.2f s); the time doubles with every level",
+				cs.Depth, len(text), 2*cs.Depth+2, dur.Seconds(), limit), map[string]any{"kind": "c01-text", "text": text, "depth": cs.Depth})
+		}
+		return nil
+	})
+	if err != nil {
+		res.Error = err.Error()
+	}
+	var tl []string
+	for _, p := range pts {
+		tl = append(tl, fmt.Sprintf("depth %d: %d bytes %.3f s", p.depth, p.bytes, p.dur))
+	}
+	res.Extra = map[string]any{"timings": tl}
+	return res
+}
+
+func init() { subcmds["types-chain"] = typesChain }
